@@ -2,6 +2,7 @@
 
 Generated into lean/Snel/Gen/C16.lean:
   * unitTable  — the arms of `normalize_integer_epoch` (digit-count range -> divisor)
+  * unitDivFloors — whether those arms floor (`div_euclid`) or truncate (`/`)
   * maxDigits  — the largest digit count that is still accepted
   * naive bucket widths of `naive_bucket_of`
 Every other `grab` below only checks that a code shape the Lean model copies is still there
@@ -22,25 +23,42 @@ def generate(api):
     body = api.grab(t, r"fn normalize_integer_epoch\(n: i128\) -> Option<i64> \{(.*?)\n    \}", rel,
                     "normalize_integer_epoch body", re.S).group(1)
     api.grab(body, r"let abs = n\.unsigned_abs\(\);\s*let digits = num_digits_u128\(abs\);", rel, "digit count of |n|")
-    arms = re.findall(r"(\d+)\.\.=(\d+) => n( / ([0-9_]+))?,", body)
-    if not arms:
+    # every `lo..=hi => <expr>,` arm must be understood: `n`, `n / LIT` (truncates) or
+    # `n.div_euclid(LIT)` (floors)
+    all_arms = re.findall(r"(\d+)\.\.=(\d+) => ([^,]+),", body)
+    if not all_arms:
         raise api.Missing(f"{rel}: no digit-range arms found in normalize_integer_epoch")
     rows = []
+    modes = set()
     prev_hi = None
-    for lo, hi, _, div in arms:
-        lo, hi = int(lo), int(hi)
-        d = api.num(div) if div else 1
+    for lo, hi, expr in all_arms:
+        lo, hi, expr = int(lo), int(hi), expr.strip()
+        if expr == "n":
+            d = 1
+        else:
+            m = re.fullmatch(r"n / ([0-9_]+)", expr)
+            if m:
+                d = api.num(m.group(1)); modes.add("trunc")
+            else:
+                m = re.fullmatch(r"n\.div_euclid\(([0-9_]+)\)", expr)
+                if not m:
+                    raise api.Missing(f"{rel}: arm {lo}..={hi} has an unknown form: {expr}")
+                d = api.num(m.group(1)); modes.add("floor")
         if prev_hi is not None and lo != prev_hi + 1:
             raise api.Missing(f"{rel}: digit ranges are not contiguous at {lo}")
         prev_hi = hi
         rows.append((lo, hi, d))
     if rows[0][0] != 0:
         raise api.Missing(f"{rel}: first digit range does not start at 0")
+    if len(modes) != 1:
+        raise api.Missing(f"{rel}: arms mix rounding modes or none divides: {sorted(modes)}")
     api.grab(body, r"_ => return None,", rel, "reject arm")
     api.grab(body, r"i64::try_from\(secs\)\.ok\(\)", rel, "i64 narrowing")
-    emit("/-- (lowest digit count, highest digit count, divisor) — `/` on i128 truncates toward zero. -/")
+    emit("/-- (lowest digit count, highest digit count, divisor). -/")
     emit("def unitTable : List (Nat × Nat × Nat) := [" + ", ".join(f"({a}, {b}, {c})" for a, b, c in rows) + "]")
     emit(f"def maxDigits : Nat := {rows[-1][1]}")
+    emit("/-- how the arms divide: `n.div_euclid(d)` floors (true), `n / d` on i128 truncates toward zero (false) -/")
+    emit(f"def unitDivFloors : Bool := {'true' if modes == {'floor'} else 'false'}")
     # num_digits_u128: 0 has one digit
     api.grab(t, r"fn num_digits_u128\(mut x: u128\) -> u32 \{\s*if x == 0 \{\s*return 1;\s*\}", rel, "num_digits_u128(0) = 1")
     # parse order
